@@ -1,6 +1,7 @@
 package props
 
 import (
+	"time"
 	"bytes"
 	"fmt"
 	"runtime"
@@ -20,6 +21,10 @@ type c12Case struct {
 	Img   *gen.Img
 	Opts  *gen.Opts
 	Procs []int
+	// Plan: delays applied at the row pipeline's hook points while GOMAXPROCS > 1 (nil = none). "The same bytes for
+	// every GOMAXPROCS value" has to hold however the extra workers happen to interleave, so some cases run the
+	// multi-worker encodes under a perturbed schedule (same mechanism as C10's schedule part).
+	Plan []c10Delay
 }
 
 func genC12(t *rapid.T) *c12Case {
@@ -79,6 +84,20 @@ func genC12(t *rapid.T) *c12Case {
 	if c.Opts.Lossless && rapid.Bool().Draw(t, "highQ") {
 		c.Opts.SetQuality(float32(rapid.IntRange(90, 100).Draw(t, "q90")))
 	}
+	if class == "lossy" && rapid.IntRange(0, 2).Draw(t, "perturb") == 0 {
+		for i, n := 0, rapid.IntRange(1, 4).Draw(t, "nDelays"); i < n; i++ {
+			d := c10Delay{Site: rapid.SampledFrom([]string{"wait", "wait.registered", "signal", "signal.stored", "claim", "export"}).Draw(t, "site")}
+			d.RowMod = rapid.IntRange(1, 4).Draw(t, "rowMod")
+			d.RowRes = rapid.IntRange(0, d.RowMod-1).Draw(t, "rowRes")
+			d.Kind = rapid.SampledFrom([]string{"gosched", "gosched", "sleep"}).Draw(t, "kind")
+			if d.Kind == "gosched" {
+				d.N = rapid.IntRange(1, 20).Draw(t, "n")
+			} else {
+				d.N = rapid.IntRange(1, 200).Draw(t, "us")
+			}
+			c.Plan = append(c.Plan, d)
+		}
+	}
 	c.Img = &gen.Img{W: w, H: h, Kind: "nrgba", Place: "tight", Content: content, Alpha: alpha}
 	c.Img.Pix = gen.RenderContent(w, h, content, alpha, seed)
 	c.Img.Colors = 300
@@ -118,11 +137,27 @@ func encodeAt(c *c12Case, p int, pin map[string]bool) ([]byte, map[string]bool, 
 		}
 		return n
 	}
+	if p > 1 && len(c.Plan) > 0 {
+		verifhook.OnYield = func(site string, y, x int) {
+			for _, d := range c.Plan {
+				if d.Site == site && y%d.RowMod == d.RowRes {
+					if d.Kind == "gosched" {
+						for i := 0; i < d.N; i++ {
+							runtime.Gosched()
+						}
+					} else {
+						time.Sleep(time.Duration(d.N) * time.Microsecond)
+					}
+				}
+			}
+		}
+	}
 	old := runtime.GOMAXPROCS(p)
 	flushPools()
 	b, err := encodeImg(c.Img.Build(), c.Opts)
 	runtime.GOMAXPROCS(old)
 	verifhook.OnWorkers = nil
+	verifhook.OnYield = nil
 	return b, engaged, err
 }
 
